@@ -459,3 +459,46 @@ def check_row_order_free(ctx, rule: str):
     no = defs.get("new_order")
     ok = no is not None and unparse(no) == "list(target_rates[feature])"
     ctx.ob(rule, construct(fi, "the categorical order is exactly the order of the target-rate table"), ok, loc(fi, no))
+
+
+def check_select_nonempty(ctx, rule: str, select_fn=lambda fi: True):
+    """numpy.select raises ValueError on an empty condition list: a call whose condition list is
+    built by a comprehension (possibly empty) must be under a non-emptiness test of that list or of
+    the list it is built from."""
+    repo = ctx.repo
+    n = 0
+    for fi in repo.all_functions():
+        if "/selectors/" in fi.module.relpath or not select_fn(fi):
+            continue
+        cfg = None
+        for c in walk_no_nested(fi.node):
+            if not (isinstance(c, ast.Call) and isinstance(c.func, ast.Name) and c.func.id == "select" and c.args):
+                continue
+            sym = repo.resolve_name(fi.module, "select")
+            if not (isinstance(sym, External) and sym.dotted.startswith("numpy")):
+                continue
+            n += 1
+            cfg = cfg or cfg_of(ctx, fi)
+            names = set()
+            a0 = c.args[0]
+            defs = single_defs(fi.node)
+            if isinstance(a0, ast.Name):
+                names.add(a0.id)
+                d = defs.get(a0.id)
+                if d is None:
+                    from .carver import dominating_def
+                    d = dominating_def(cfg, fi.node, a0.id, c)
+                if isinstance(d, (ast.ListComp, ast.GeneratorExp)) and not d.generators[0].ifs and isinstance(d.generators[0].iter, ast.Name):
+                    names.add(d.generators[0].iter.id)  # same length as its source list
+            guarded = False
+            for t, pol in _flatten_conditions(cfg.path_conditions(c)):
+                cc = cmp_canon(t)
+                if pol and cc and cc[0] == "0" and cc[1] == "<" and any(cc[2] == f"len({nm})" for nm in names):
+                    guarded = True
+                if pol and cc and cc[1] == "!=" and "0" in (cc[0], cc[2]) and any(f"len({nm})" in (cc[0], cc[2]) for nm in names):
+                    guarded = True
+                if pol and isinstance(t, ast.Name) and t.id in names:
+                    guarded = True
+            ctx.ob(rule, construct(fi, f"select({short(a0, 30)}, ...) runs only when the condition list is not empty"), guarded, loc(fi, c),
+                   "" if guarded else "numpy.select raises ValueError (not AssertionError) on an empty condition list, e.g. when nothing has to be grouped")
+    return n
